@@ -163,7 +163,7 @@ func TestVerifC27(t *testing.T) {
 		tb := verifc27.NewTable()
 		tb.SettingsFrames(d, pass, all)
 		cases.Write(verifh.Case{In: "sdec " + verifh.Hex(d) + " " + tb.String(), Impl: c27Impl(got, err), Desc: kind})
-		stats.Inc("decrypt." + kind)
+		stats.Inc("decrypt." + verifc27.StatKind(kind))
 
 		input := "data=" + verifh.Hex(d) + " pass=" + verifh.Hex(pass) + " (" + kind + ")"
 		_, body := c27Split(d)
@@ -337,6 +337,51 @@ func TestVerifC27(t *testing.T) {
 
 	for i := 0; i < verifh.N(25, 120); i++ {
 		family("legacy", i, false)
+	}
+
+	// ---- key sweep: the LENGTH of the passphrase and the POSITION of a key difference (see
+	// verifc27.KeyVariants): a ciphertext made under k opens under k only.  legacy and v2
+	// (MD5 / SHA-256 keyed, cheap): every length x every position; v3 (Argon2id, two
+	// derivations per line): one 128-character key with the essential differences.
+	kr := verifh.Rand(2705)
+
+	keyFamily := func(kind string, n, style, level int) {
+		pass := verifc27.KeyOfLen(kr, n, style)
+		plain := verifc27.Plain(kr, 2+kr.Intn(16))
+
+		var s string
+
+		switch kind {
+		case "v3":
+			var err error
+			if s, err = Encrypt(plain, pass); err != nil {
+				t.Fatalf("Encrypt: %v", err)
+			}
+		case "v2":
+			s = verifc27.SettingsV2(kr, plain, pass)
+		default:
+			s = verifc27.SettingsLegacy(kr, plain, pass)
+		}
+
+		check(kind+".key.honest", s, pass, &plain, nil)
+
+		for _, v := range verifc27.KeyVariants(kr, pass, level) {
+			check(kind+".key."+v.Kind, s, v.Key, nil, nil)
+			stats.Inc("keysweep." + kind)
+		}
+	}
+
+	for _, n := range verifc27.KeyLens {
+		keyFamily("legacy", n, n%2, 3)
+		keyFamily("v2", n, 1-n%2, 3)
+	}
+
+	keyFamily("v3", 128, 0, 0)
+
+	if verifh.Thorough() {
+		for _, n := range []int{33, 65, 73, 1000} {
+			keyFamily("v3", n, n%2, 1)
+		}
 	}
 
 	// ---- junk strings
